@@ -1037,7 +1037,10 @@ hwloc_distances_get_by_name(hwloc_topology_t topology, const char *name,
     return -1;
   }
 
-  return hwloc__distances_get(topology, name, HWLOC_OBJ_TYPE_NONE, nrp, distancesp, HWLOC_DISTANCES_KIND_ALL, flags);
+  /* no kind filter (0 matches everything): HWLOC_DISTANCES_KIND_ALL would only match
+   * structures whose kind has both a FROM_ and a VALUE_ bit.
+   */
+  return hwloc__distances_get(topology, name, HWLOC_OBJ_TYPE_NONE, nrp, distancesp, 0, flags);
 }
 
 int
